@@ -3,7 +3,6 @@ package security
 import (
 	"fmt"
 	"regexp"
-	"strings"
 )
 
 // Severity represents the severity level of a security finding.
@@ -144,10 +143,10 @@ var tautologyPatterns = []*regexp.Regexp{
 
 func (r *TautologyRule) Check(sql string) []Finding {
 	var findings []Finding
-	upper := strings.ToUpper(sql)
 	for _, pat := range tautologyPatterns {
-		for _, loc := range pat.FindAllStringIndex(upper, -1) {
-			// Verify it's actually a match on original (case insensitive regex already handles this)
+		// the patterns are case-insensitive; matching the text itself keeps the offsets valid for it
+		// (an upper-cased copy can have a different length)
+		for _, loc := range pat.FindAllStringIndex(sql, -1) {
 			matched := sql[loc[0]:loc[1]]
 			findings = append(findings, Finding{
 				RuleID:   r.ID(),
